@@ -24,7 +24,8 @@ def fix_sum(b, off=20):
 
 
 class Image:
-    def __init__(self, nblocks, flav, rng, volname=b"indep", garbage=True, policy="random"):
+    def __init__(self, nblocks, flav, rng, volname=b"indep", garbage=True, policy="random", pack_cache=False):
+        self.pack_cache = pack_cache      # True: cache blocks are filled to the brim (no random early split)
         self.n = nblocks
         self.flav = flav
         self.rng = rng
@@ -38,6 +39,10 @@ class Image:
             free.reverse()
         elif policy == "interleave":
             free = free[::2] + free[1::2]
+        elif policy == "data-low":
+            # file data from the lowest blocks upwards (block 2 first), metadata from the top downwards
+            free.reverse()
+        self.policy = policy
         self.freelist = free
         self.used = {self.root}
         self.garbage = garbage
@@ -45,8 +50,8 @@ class Image:
         self.meta = {}          # header block -> dict(kind, path, size, ...)
         self.links = []
 
-    def alloc(self):
-        b = self.freelist.pop()
+    def alloc(self, data=False):
+        b = self.freelist.pop() if (data or self.policy != "data-low") else self.freelist.pop(0)
         self.used.add(b)
         return b
 
@@ -71,7 +76,7 @@ class Image:
         b[328] = len(comment)
         b[329:329 + len(comment)] = comment
         d = (len(content) + self.bs - 1) // self.bs
-        dblocks = [self.alloc() for _ in range(d)]
+        dblocks = [self.alloc(data=True) for _ in range(d)]
         # data blocks
         for i, db in enumerate(dblocks):
             chunk = content[i * self.bs:(i + 1) * self.bs]
@@ -162,7 +167,7 @@ class Image:
         blocks = [[]]
         used = 0
         for r in recs:
-            if used + len(r) > 488 or (self.rng.random() < 0.15 and blocks[-1]):
+            if used + len(r) > 488 or (not self.pack_cache and self.rng.random() < 0.15 and blocks[-1]):
                 blocks.append([]); used = 0
             blocks[-1].append(r); used += len(r)
         ids = [self.alloc() for _ in blocks]
